@@ -22,6 +22,7 @@ func checkC13(c *Ctx) {
 	c13LiteralMapping(c)
 	c13Precision(c)
 	c13ErrorReturns(c)
+	diagsKeptRule(c, "R7", 10, "json")
 	c.NotCovered("that the scanner and parser accept every valid JSON text and reject every invalid one (a language-equivalence question over byte strings); only the structural obligations above are decided")
 }
 
